@@ -107,7 +107,10 @@ def s2c_programs(tier, seed):
     add(sp.Matrix([[x, 1], [-1, sp.Float(0.5) * y]]))
     add(sp.Matrix([[sp.sin(x) + 2.5, 0], [sp.Rational(1, 3), x * y]]))
     for e in (sp.sin(x + y) * sp.cos(x + y) + (x + y) ** 2, (x * y + 1) ** 2 + sp.sqrt(x * y + 1), gF(x) + fF(x),
-              fF(gF(x)) + gF(fF(y))):
+              fF(gF(x)) + gF(fF(y)),
+              # nested common subexpressions (x1 defined through x0)
+              sp.sin((x + y) ** 2 + 1) + sp.cos((x + y) ** 2 + 1) + (x + y) ** 2 * (x + y) + (x + y),
+              sp.sqrt((x * y + 2) ** 2 + 3) * ((x * y + 2) ** 2 + 3) + (x * y + 2) * sp.sin(x * y + 2)):
         add(e)
         add(e, cse=True)
     if tier == "thorough":
@@ -244,12 +247,29 @@ def check_pair(name, source_is, f_ca, sym_expr, f_ref_builder, var_names, stats)
                 pt = [[float(env[n])] for n in var_names]
                 o = _casadi_eval(f_ca, pt)
                 r_ = len(o[0])
-                cav = o[0][k % r_][k // r_]
+                cav = o[0][k % r_][k // r_]  # entries are enumerated column-major on both sides
                 syv = complex(_num_sympy(se, {n: float(env[n]) for n in var_names}))
                 ok = abs(cav - syv.real) <= 1e-9 * (1 + abs(cav)) and abs(syv.imag) < 1e-12
                 rec["replay"] = dict(confirmed=not ok, env={n: float(env[n]) for n in var_names}, casadi=cav, sympy=str(syv))
             except Exception as e:
                 rec["replay"] = dict(confirmed=False, reason=f"numeric replay failed: {type(e).__name__}: {e}")
+            if not rec["replay"].get("confirmed"):
+                # the model may sit on a point where uninterpreted heads happen to coincide numerically (sin(0) = 0*b);
+                # the two sides are not provably equal, so look for a concrete input on which the real functions differ
+                rng = random.Random(hash(lab) & 0xffff)
+                for _ in range(40):
+                    env2 = {n: rng.choice([-1, 1]) * rng.uniform(0.2, 1.9) for n in var_names}
+                    try:
+                        o = _casadi_eval(f_ca, [[env2[n]] for n in var_names])
+                        r_ = len(o[0])
+                        cav = o[0][k % r_][k // r_]
+                        syv = complex(_num_sympy(se, env2))
+                        if cav == cav and abs(syv.imag) < 1e-12 and abs(cav - syv.real) > 1e-9 * (1 + abs(cav)):
+                            rec["replay"] = dict(confirmed=True, env=env2, casadi=cav, sympy=str(syv),
+                                                 note="solver model not reproducible; differing input found by sampling")
+                            break
+                    except Exception:
+                        continue
             rec["status"] = "refuted" if rec["replay"].get("confirmed") else "spurious"
             rec["model"] = {k_: str(v_) for k_, v_ in model.items() if "!" not in k_}
         else:
